@@ -107,7 +107,7 @@ def run(run):
     script = {}
 
     def responder(req):
-        return script['status'], script['body'], {}
+        return script['status'], script['body'], script.get('headers') or {}
     stub = yggdrasil.Stub(responder)
     stub.install()
     counter = [0]
@@ -131,6 +131,26 @@ def run(run):
             shape = 'valid'
         script['status'] = status
         script['body'] = b'' if status == 204 else body_for(shape, n)
+        # reply headers a service or a proxy in front of it may add: a
+        # Retry-After on the overload statuses (the reply still decides: one
+        # request, one outcome), and a declared charset other than UTF-8 for a
+        # JSON body (the text is what the declared charset says it is)
+        script['headers'] = {}
+        script['json_text'] = script['body'].decode('utf-8', 'replace')
+        if status in (413, 429, 503) and n % 2 == 0:
+            script['headers']['Retry-After'] = ('0', '1')[n % 4 == 0]
+            run.count('replies_with_retry_after')
+        if status != 204 and shape in ('error', 'error+cause', 'valid') \
+                and n % 3 == 0 and not (status == 200 and shape == 'valid'):
+            cs = ('ISO-8859-1', 'utf-16', 'windows-1252')[(n // 3) % 3]
+            try:
+                script['body'] = script['body'].decode('utf-8').encode(
+                    cs.replace('windows-1252', 'cp1252'))
+                script['headers']['Content-Type'] = \
+                    'application/json; charset=%s' % cs
+                run.seen('reply_charsets', cs)
+            except UnicodeError:
+                pass
         before = snapshot(tok)
         reply = {'access_token': 'acc-%d' % n, 'client_token': 'cli-%d' % n,
                  'profile_id': 'id%032d' % n, 'profile_name': 'name%d' % n}
@@ -309,7 +329,7 @@ def run(run):
             bad('error/status-code', 'error does not carry the status code')
         effective = 'empty' if status == 204 else shape
         if effective in ('error', 'error+cause', 'error-meta'):
-            body = json.loads(script['body'].decode())
+            body = json.loads(script['json_text'])
             if exc.yggdrasil_error != body['error'] or \
                     exc.yggdrasil_message != body['errorMessage'] or \
                     exc.yggdrasil_cause != body.get('cause') or \
